@@ -86,7 +86,6 @@ class Batcher(object):
 
 # -------------------------------------------------------------------- reread
 
-KNOWN_SOCK = 'C15-fcgi-socket-options'
 KNOWN_EVORDER = 'C15-events-order'
 KNOWN_DUP = 'C15-duplicate-group-name'
 
@@ -101,7 +100,7 @@ class Reread(object):
         self.base = c15_real.base_text(wd)
         self.rr = Batcher('rr', 'list gconf * list gconf * (list bytes * list bytes * list bytes)', 'check_reread', 150)
         self.ne = Batcher('ne', 'gconf * gconf * bool * bool', 'check_ne', 400)
-        self.known = {KNOWN_SOCK: 0, KNOWN_EVORDER: 0, KNOWN_DUP: 0}
+        self.known = {KNOWN_EVORDER: 0, KNOWN_DUP: 0}
         self.outcomes = set()
         self.n = 0
         self.samples = []
@@ -185,9 +184,7 @@ class Reread(object):
                     unexplained.append('added/removed')
                 for nm in sorted(set(exp[1]) ^ set(got[1])):
                     d = info.get(nm, [])
-                    if nm in exp[1] and d and all(x.startswith('sock:') and x not in ('sock:url', 'sock:<class>') for x in d):
-                        self.known[KNOWN_SOCK] += 1
-                    elif nm in got[1] and d == ['pool_events:order']:
+                    if nm in got[1] and d == ['pool_events:order']:
                         self.known[KNOWN_EVORDER] += 1
                     else:
                         unexplained.append('%s: differences %r' % (nm, d))
@@ -380,10 +377,6 @@ def finish_reread(chk, rr, results):
 
 
 def report_known(chk, known):
-    if known.get(KNOWN_SOCK):
-        chk.known_finding(KNOWN_SOCK, 'a change of socket_owner, socket_mode or socket_backlog of an [fcgi-program:x] '
-                          'section is not reported as changed by reread (SocketConfig.__eq__ compares the url only); '
-                          '%d such rereads explored, all agree with the model' % known[KNOWN_SOCK])
     if known.get(KNOWN_EVORDER):
         chk.known_finding(KNOWN_EVORDER, 'an [eventlistener:x] whose events= line lists the same event types in another order '
                           'can be reported as changed (pool_events is a list in set-iteration order); %d such rereads '
